@@ -523,8 +523,8 @@ Proof.
   - (* lost *) destruct (find_proc (s_procs s) w0) as [pw|]; [|discriminate].
     destruct (on_remove_worker_FB (s, []) _ _ _ _ _ (s', outs) (pr_sorted _ HP) (inv_cb _ HI) H0 w p' Hp') as (p0 & Hp0 & Hb). cbn [fst] in Hp0.
     destruct (same_body_fut _ _ Hb) as (E1 & E2 & E3 & E4 & E5). exists p0. split; [exact Hp0|]. repeat split; try assumption. intros m Hm. rewrite <- E4. exact Hm.
-  - apply (Hfb quietA s []); [eapply handle_submit_array_FB; [|exact H0]; intros w0 m Hm; exact Hm | exact Hsame].
-  - apply (Hfb quietA s []); [|exact Hsame]. destruct (bad_graph_rq _ _); [inversion H0; subst; apply FB_same; reflexivity|]. eapply handle_submit_graph_FB; [|exact H0]. intros w0 m Hm; exact Hm.
+  - apply (Hfb quietA s []); [|exact Hsame]. destruct (bad_submit_lengths _ _); [inversion H0; subst; apply FB_same; reflexivity|]. eapply handle_submit_array_FB; [|exact H0]; intros w0 m Hm; exact Hm.
+  - apply (Hfb quietA s []); [|exact Hsame]. destruct (bad_graph_rq _ _); [inversion H0; subst; apply FB_same; reflexivity|]. destruct (dead_dep _ _ _); [inversion H0; subst; apply FB_same; reflexivity|]. eapply handle_submit_graph_FB; [|exact H0]. intros w0 m Hm; exact Hm.
   - apply (Hfb quietA s []); [eapply handle_open_FB; exact H0 | exact Hsame].
   - apply (Hfb quietA s []); [eapply handle_close_FB; exact H0 | exact Hsame].
   - apply (Hfb quietA s []); [eapply handle_cancel_FB; [|exact H0]; intros w0 m Hm; exact Hm | exact Hsame].
